@@ -142,9 +142,13 @@ def join_blocks(
     module = block1.module
     assert ir and module and block2.section
 
-    cache.reference_cache.retarget_references(
-        block2, block1, bool(block1.size)
-    )
+    if block1.size:
+        cache.reference_cache.retarget_references(block2, block1, True)
+    else:
+        # An empty block1 takes over block2's extent, so labels at the start
+        # of block2 stay start labels and labels at its end stay end labels.
+        for sym in tuple(cache.reference_cache.get_references(block2)):
+            cache.reference_cache.set_referent(sym, block1, sym.at_end)
 
     if isinstance(block2, gtirb.CodeBlock):
         assert isinstance(block1, gtirb.CodeBlock)
